@@ -47,7 +47,8 @@
     'decreases': 'g_n - (size_t)__CPROVER_POINTER_OFFSET(ptr)'},
  ],
  'solver': 'cadical',
- 'witness': {'unwind': 9},
+ 'fallback': 'ghost-free',
+ 'witness': {'unwind': 7},
 } @*/
 #include "c19_harness.h"
 #define C19_QUOTE(c) ((c) == '"' || (c) == '\'')
@@ -61,6 +62,9 @@ void harness(void)
     WIT(size_t, q);
     WIT_ARR(char, content, 8);
     __CPROVER_assume(n <= VC_MAXOBJ);
+#ifdef WITNESS_MODE
+    __CPROVER_assume(n <= 5); /* concretisation / fallback runs: three nested scans, keep the unwinding small */
+#endif
     /* known finding: `while (*ptr == ' ' && ptr != end)` reads *ptr first, and the scan comes back to this loop standing at the end after an
        unquoted last token, after a closing quote at the end and after trailing spaces: nearly every call reads the byte at the end.
        Carved out by one readable spare byte (any content) behind the buffer, probed on the exact-size buffer */
@@ -68,6 +72,9 @@ void harness(void)
     char *data = NEW_OBJ(n + spare);
     FILL(data, n + spare, content);
     g_data0 = data; g_n = n; g_t = t; g_q = q;
+#ifdef WITNESS_MODE
+    g_all_n = 0;
+#endif
     g_ntok = 0; g_ts = g_tl = g_ts1 = g_last_s = g_last_end = g_base = g_cur = 0; g_empty = 0; g_isq = g_tq = g_tq1 = g_last_q = 0;
 
     cxx_split_cmdargs(data, n);
@@ -101,5 +108,33 @@ void harness(void)
             __CPROVER_assert(g_last_end == e && g_last_q == g_tq, "split_cmdargs: the last token recorded is token ntok-1");
         }
     }
+#if defined(WITNESS_MODE) && KF_C19_split_cmdargs_overread == 0
+    /* direct reference command-line tokeniser over the (small, concrete) buffer, compared with the WHOLE recorded sequence: depends on the
+       recorder calls only, not on injected ghost statements */
+    {
+        size_t rs[C19_REC_MAX], rl[C19_REC_MAX], rn = 0, pos = 0;
+        while (pos < n) {
+            while (pos < n && data[pos] == ' ') pos++;
+            if (pos == n) break;
+            size_t s0, e0;
+            if (C19_QUOTE(data[pos])) {
+                char qc = data[pos];
+                s0 = ++pos;
+                while (pos < n && data[pos] != qc) pos++;
+                e0 = pos;
+                if (pos < n) pos++; /* closing quote */
+            } else {
+                s0 = pos;
+                while (pos < n && data[pos] != ' ') pos++;
+                e0 = pos;
+            }
+            if (rn < C19_REC_MAX) { rs[rn] = s0; rl[rn] = e0 - s0; }
+            rn++;
+        }
+        __CPROVER_assert(g_all_n == rn, "split_cmdargs: number of tokens of the reference tokeniser (direct reference)");
+        for (size_t i = 0; i < rn && i < g_all_n && i < C19_REC_MAX; i++)
+            __CPROVER_assert(g_all_s[i] == rs[i] && g_all_l[i] == rl[i], "split_cmdargs: token i of the reference tokeniser (direct reference)");
+    }
+#endif
     CANARY("split_cmdargs end reachable");
 }
